@@ -1062,6 +1062,24 @@ func (c *Ctx) formula(v ssa.Value) *Formula {
 				}
 				return Not(Iff(a, b))
 			}
+			if x.Op == token.EQL || x.Op == token.NEQ {
+				var other ssa.Value
+				if k, ok := x.Y.(*ssa.Const); ok && k.IsNil() {
+					other = x.X
+				} else if k, ok := x.X.(*ssa.Const); ok && k.IsNil() {
+					other = x.Y
+				}
+				// only for error values: pointer-typed optional results keep their atoms, which the
+				// rules name explicitly (taint time, instance, …)
+				if other != nil && isErrorType(other.Type()) {
+					if f, ok := c.nilDecided(other, 0); ok {
+						if x.Op == token.NEQ {
+							return Not(f)
+						}
+						return f
+					}
+				}
+			}
 			return cmpFormula(x.Op, c.Term(x.X), c.Term(x.Y))
 		case token.AND, token.OR:
 			if isBool(x.Type()) {
@@ -1105,6 +1123,93 @@ func (c *Ctx) formula(v ssa.Value) *Formula {
 		}
 	}
 	return termFormula(c.Term(v))
+}
+
+// nilDecided: the formula of "v == nil" when v's nil-ness is decided by control flow alone — v is
+// a constant nil, a value that is never nil (a freshly built error, an address, a value boxed into
+// an interface), a φ of such values, or the result of an inlinable repo helper all of whose
+// returns are such values. This is what makes `if err := check(...); err != nil { return }`
+// transparent: the comparison becomes the disjunction of the helper's nil-returning paths.
+func (c *Ctx) nilDecided(v ssa.Value, depth int) (*Formula, bool) {
+	if depth > 4 {
+		return nil, false
+	}
+	if t, ok := c.bind[v]; ok {
+		if t.Kind == "const" && t.Name == "nil" {
+			return FTrue, true
+		}
+		return nil, false
+	}
+	switch x := v.(type) {
+	case *ssa.Const:
+		if x.IsNil() {
+			return FTrue, true
+		}
+		return nil, false
+	case *ssa.MakeInterface, *ssa.Alloc, *ssa.FieldAddr, *ssa.IndexAddr, *ssa.MakeMap, *ssa.MakeSlice, *ssa.MakeClosure, *ssa.Function, *ssa.MakeChan:
+		return FFalse, true
+	case *ssa.ChangeInterface:
+		return c.nilDecided(x.X, depth)
+	case *ssa.ChangeType:
+		return c.nilDecided(x.X, depth)
+	case *ssa.Phi:
+		b := x.Block()
+		var alts []*Formula
+		for i, e := range x.Edges {
+			p := b.Preds[i]
+			if c.fi.backEdge[[2]int{p.Index, b.Index}] {
+				return nil, false
+			}
+			f, ok := c.nilDecided(e, depth+1)
+			if !ok {
+				return nil, false
+			}
+			alts = append(alts, And(c.edgePC(p, b), f))
+		}
+		return Or(alts...), true
+	case *ssa.Call:
+		if errorConstructor(x) {
+			return FFalse, true
+		}
+		return c.nilDecidedCall(x, 0, depth)
+	}
+	// results of multi-value helpers (value, error) keep their atom: their error is tied to the
+	// computation of the value and expanding it only inflates the path conditions
+	return nil, false
+}
+
+func (c *Ctx) nilDecidedCall(call *ssa.Call, idx, depth int) (*Formula, bool) {
+	f := call.Common().StaticCallee()
+	if f == nil || !c.inlinable(f) {
+		return nil, false
+	}
+	args := make([]*Term, len(call.Common().Args))
+	for i, a := range call.Common().Args {
+		args[i] = c.Term(a)
+	}
+	ch := c.child(f, call, args)
+	var alts []*Formula
+	for _, b := range f.Blocks {
+		if len(b.Instrs) == 0 {
+			continue
+		}
+		r, ok := b.Instrs[len(b.Instrs)-1].(*ssa.Return)
+		if !ok {
+			continue
+		}
+		if idx >= len(r.Results) {
+			return nil, false
+		}
+		g, ok := ch.nilDecided(r.Results[idx], depth+1)
+		if !ok {
+			return nil, false
+		}
+		alts = append(alts, And(ch.BlockPC(b), g))
+	}
+	if len(alts) == 0 {
+		return nil, false
+	}
+	return Or(alts...), true
 }
 
 // termFormula turns a bool-typed term back into a formula (used for bound parameters).
@@ -1429,4 +1534,9 @@ func topoBlocks(fn *ssa.Function) []*ssa.BasicBlock {
 		post[i], post[j] = post[j], post[i]
 	}
 	return post
+}
+
+func isErrorType(t types.Type) bool {
+	n, ok := t.(*types.Named)
+	return ok && n.Obj().Pkg() == nil && n.Obj().Name() == "error"
 }
